@@ -1,5 +1,7 @@
 import Setec.Proofs.DB
+import Setec.Proofs.Json
 import Setec.Spec.DBMon
+import Setec.Generated.Facts
 /-!
 # C06 - the audit log records every disclosure, mutation attempt and denial, fail-closed
 
@@ -128,5 +130,53 @@ example : ∃ kv c, (step Cfg.std kv c (.get "a") true true).2.1.disclosesValue 
      rw [step_outcome _ _ _ _ _ (by simp)]
      simp [outcome, wellFormed, actionOf, nameOf, exec, KV.get, newSecret, Res.disclosesValue]
      simp [hg]⟩
+
+/-! ### the record as bytes on the log
+
+`Model/Json.lean` is encoding/json's string escaping and the field layout of `audit.Entry`
+(tied by the extracted struct definitions below and, byte for byte, by the `auditfmt` trace
+family, which pushes hostile strings through the real `audit.Writer`). -/
+
+/-- T1: the fields, order and `omitempty` options the layout model assumes, and that the
+writer uses the default `json.Encoder` (HTML escaping on, no indentation) -/
+theorem record_layout :
+    Facts.struct_auditEntry =
+      ["ID:uint64 `json:\"id\"`", "Time:time.Time `json:\"time\"`", "Principal:Principal `json:\"principal\"`",
+       "Action:acl.Action `json:\"action\"`", "Authorized:bool `json:\"authorized\"`",
+       "Secret:string `json:\"secret,omitempty\"`", "SecretVersion:api.SecretVersion `json:\"secretVersion,omitempty\"`"] ∧
+    Facts.struct_auditPrincipal =
+      ["Hostname:string `json:\"hostname\"`", "IP:netip.Addr `json:\"ip\"`", "User:string `json:\"user,omitempty\"`",
+       "Tags:[]string `json:\"tags,omitempty\"`"] ∧
+    Facts.auditEncoderCalls = ["Encode", "json.NewEncoder"] := by
+  decide
+
+/-- "one complete JSON line naming the caller's identity, the action, the secret (and version
+where one was given) and whether it was authorized": whatever characters the hostname, user,
+tags, action and secret name contain, reading the written line back yields exactly the
+record that was written (and the stamped id and time), followed by the line terminator. -/
+theorem record_reads_back (id : Nat) (time : Json.Str) (r : Json.Record) :
+    Json.parseLine (Json.renderLine id time r) = some (id, time, r, ['\n']) :=
+  Json.parseLine_render id time r
+
+/-- no string in a record can forge, hide or alter another field: distinct records have
+distinct lines -/
+theorem record_injective (id id' : Nat) (time time' : Json.Str) (r r' : Json.Record)
+    (h : Json.renderLine id time r = Json.renderLine id' time' r') : r = r' :=
+  (Json.renderLine_injective id id' time time' r r' h).2.2
+
+/-- a record is exactly one line: its only newline is its last character, so concatenated
+records (O_APPEND writes) split back into the records written -/
+theorem record_one_line (id : Nat) (time : Json.Str) (r : Json.Record) :
+    ∃ body, Json.renderLine id time r = body ++ ['\n'] ∧ ∀ c ∈ body, c ≠ '\n' :=
+  Json.renderLine_one_line id time r
+
+/-- non-vacuity / regression example: a secret name that tries to close the record and open a
+forged one is read back as that name -/
+example :
+    let r : Json.Record := { principal := { hostname := "h".toList, ip := "100.64.0.1".toList, user := [], tags := ["tag:a".toList] },
+                             action := "get".toList, authorized := false,
+                             secret := "x\",\"authorized\":true}\n{\"id\":1".toList, version := 7 }
+    (Json.parseLine (Json.renderLine 5 "t".toList r)).map (·.2.2.1.secret) = some r.secret := by
+  intro r; rw [Json.parseLine_render]; rfl
 
 end Setec.C06
